@@ -6,6 +6,35 @@ ROOT = os.path.dirname(os.path.dirname(os.path.abspath(__file__)))
 
 # id -> (category, technique, level text, level note, design ref)
 CHECKS = {
+ "C01": ("exploration",
+   "proptest value generation; round-trip + differential against an independent spec codec; exhaustive varints",
+   "Generated packet values of every kind (optional fields/properties independently present, all reason codes, boundary string lengths, PUBLISH aimed at "
+   "every Remaining-Length width boundary) are encoded by the library and read back by an independent reference decoder, round-tripped through the library, "
+   "and the reference encoder's bytes (random property order, explicit defaults, short forms) are read by the library. Variable byte integers: all n < 2^17 "
+   "quick, all 2^28 thorough. Sampled, not exhaustive, over packet values: the space is unbounded.",
+   "Trusted: reference codec harness/src/spec/{wire,v3,v5}.rs written from the OASIS texts (cross-checked by the foreign-bytes oracle); conv.rs projection rules (absent <=> default).",
+   "DESIGN.md section 3 C01"),
+ "C02": ("exploration",
+   "bounded-exhaustive byte strings + structure-aware mutation fuzzing against a frame splitter / reference decoder oracle",
+   "Every byte string of length <=3 and every string of length <=6/7 over 12 interesting bytes, plus tens of thousands of structure-aware mutations of valid frames, "
+   "each under several deliveries and max-size/min-chunk settings, through the v3 codec, the v5 codec and the sniffing codec; judged for panics, progress, framing, the "
+   "must-reject classes of the statement, early oversize rejection and stability of everything accepted. Exhaustive on the short inputs, sampled on mutations.",
+   "Trusted: reference decoder's classification of frames into valid / must-reject / gray (gray zone listed in the evidence assumptions).",
+   "DESIGN.md section 3 C02"),
+ "C09": ("exploration",
+   "proptest packets x exhaustive limit grid, metamorphic 'only diagnostics dropped' relation checked with the reference decoder",
+   "Ack-heavy generated packets x every outbound limit 1..=64 plus sampled/extreme limits x Request-Problem-Information flag (set through the public decode path); "
+   "each output must be exactly one frame within the limit whose non-diagnostic fields are unchanged and whose user properties are an ordered sub-list; failing encodes "
+   "must append nothing; the varint-length arithmetic is checked over 2^20 (quick) / 2^28 (thorough) values.",
+   "Trusted: reference decoder; 32-byte tolerance around the library's conservative size reserve when judging 'over-size without need'.",
+   "DESIGN.md section 3 C09"),
+ "C10": ("exploration",
+   "metamorphic fragmentation-invariance: generated valid streams x exhaustive/structural/random cut sets x min-chunk settings",
+   "Valid streams with PUBLISH payloads around chunk and varint boundaries are decoded under whole, byte-at-a-time, structural +-1 and random fragmentations and "
+   "all 2^(n-1) cut sets of short streams; every run must announce each PUBLISH once, hand out exactly the bytes sent with exactly one final piece, respect min_chunk_size and "
+   "decode the following packet unchanged.",
+   "Trusted: reference encoder producing the streams; the judge in harness/src/decoding.rs.",
+   "DESIGN.md section 3 C10"),
  "C18": ("exploration",
    "bounded-exhaustive enumeration + proptest generation against a section-4.7 reference matcher",
    "Every string of length <=5 (quick) / <=6 (thorough) over {a,b,$,/,+,#} is pushed through both validators, "
